@@ -225,6 +225,13 @@ func c08Build() {
 			}
 		}
 	}
+	// names of builtins that other implementations, proposals or habit suggest: none is defined here
+	for _, n := range c08ForeignFunctions {
+		add("unknown-function", n+"(a)")
+		add("unknown-function", n+"(a, b)")
+		add("unknown-function", n+"(&a, xs)")
+		add("unknown-function-unreached", "`false` && "+n+"(`1`)")
+	}
 	for _, n := range []string{"Abs", "ABS", "to_String", "sortby", "sort_By", "len", "lenght", "foo", "a", "_", "x1", "not_nul", "tostring", "keys_", "min_By", "strlen", "string", "number", "avg2", "ma", "mapp"} {
 		add("unknown-function", n+"(a)")
 		add("unknown-function", n+"()")
@@ -268,6 +275,13 @@ func c08Build() {
 		add("syntax", s)
 	}
 }
+
+var c08ForeignFunctions = strings.Fields(`first last unique uniq flatten range slice substring substr concat format title capitalize strip now date regex_match regex_replace matches match search test sha256 md5 base64_encode base64_decode
+	to_object to_json from_json parse_json json if ifelse when coalesce default exists has has_key index_of indexof count size len number string int integer float bool boolean round trunc truncate sqrt pow power mod div add sub mul neg sign log exp
+	median mean stddev product any all none some every filter reduce fold each pluck pick omit entries from_entries to_entries object array list set union intersection difference distinct sort_desc sort_by_desc rsort take drop head tail nth chunk window
+	lpad rpad ltrim rtrim startswith endswith includes like lowercase uppercase tolower toupper to_lower to_upper charat ord chr repeat env eval let get path lookup find find_all findall position contains_key is_null is_empty empty isnull nullif nvl iif
+	group groupby group_by_key count_by sum_by avg_by min_of max_of minby maxby sortby to_bool to_boolean to_int to_float to_decimal to_date to_list to_set to_map map_values map_keys filter_keys with_entries walk paths leaf_paths del setpath getpath
+	abs_ ceil_ floor_ avg_ Length LENGTH Keys Type Map Sort Join Merge Not_null notnull to_array_ toarray tonumber tostring pad pad_center center ljust rjust zfill split_lines lines words trim_all squeeze reverse_words`)
 
 func c08N(c *Ctx) int { c08Build(); return len(c08List) }
 
@@ -341,7 +355,7 @@ func c08History(c *Ctx, idx int) {
 func init() {
 	Register(&Property{
 		ID:            "C08",
-		Rule:          "failing texts generated per category and site - every builtin with every wrong argument count (also nested and in never-evaluated branches), unknown names incl. near misses, expression references in value position and values in expression-reference position for every function and position, a wrong JSON type at every argument position, every invalid-value site (slice step 0, negative/non-integral counts and widths, pad strings, from_items shapes), undefined variables at top level/projections/filters/expression references/let bodies, every dynamic fault category raised at the first / a middle / the last element of each per-element construct (sort_by, max_by, min_by, group_by, map, projections, filters, multi-selects), division by zero and overflow per operator, two-fault combinations, syntax faults, plus seeded mutated expressions, plus call histories (a valid text searched first, then the same text decorated with runes that trimming removes but the grammar rejects; every prefix of a text shortest first, the text again, then extensions of it) - each run through Compile and through Search and Expression.Search on 13 documents (null, scalar, arrays, objects, fault-triggering, foreign Go values); checks per call: nil result with an error, exactly one exported category under errors.Is, non-empty text, category = the model's (single fault) or within the model's fault set (several), Compile and Search report the same static fault for every document, a compiled Expression never reports syntax/arity/unknown-function; non-trivial = the model expects an error on at least one document; distinct by text",
+		Rule:          "failing texts generated per category and site - every builtin with every wrong argument count (also nested and in never-evaluated branches), unknown names incl. near misses and ~250 names of builtins that other implementations or proposals define, expression references in value position and values in expression-reference position for every function and position, a wrong JSON type at every argument position, every invalid-value site (slice step 0, negative/non-integral counts and widths, pad strings, from_items shapes), undefined variables at top level/projections/filters/expression references/let bodies, every dynamic fault category raised at the first / a middle / the last element of each per-element construct (sort_by, max_by, min_by, group_by, map, projections, filters, multi-selects), division by zero and overflow per operator, two-fault combinations, syntax faults, plus seeded mutated expressions, plus call histories (a valid text searched first, then the same text decorated with runes that trimming removes but the grammar rejects; every prefix of a text shortest first, the text again, then extensions of it) - each run through Compile and through Search and Expression.Search on 13 documents (null, scalar, arrays, objects, fault-triggering, foreign Go values); checks per call: nil result with an error, exactly one exported category under errors.Is, non-empty text, category = the model's (single fault) or within the model's fault set (several), Compile and Search report the same static fault for every document, a compiled Expression never reports syntax/arity/unknown-function; non-trivial = the model expects an error on at least one document; distinct by text",
 		MinNontrivial: 500,
 		Streams: []Stream{
 			{Name: "sites", Setup: c08Setup, N: c08N, Run: c08Run, Exhaustive: true},
